@@ -131,6 +131,11 @@ class C02(SolverSuite):
         pre = rng.choice([0, 0, rng.randint(0, max(1, L // 2)), L])
         ops = G.gen_single_ops(rng, "S0", pre, with_solve=rng.random() < 0.85,
                                after_solve_iters=rng.choice([0, 0, rng.randint(1, 12)]))
+        if rng.random() < 0.25:
+            # Solve again (finished or not), then keep stepping
+            ops.append({"a": "S0", "op": "solve"})
+            for k in G.gen_batches(rng, rng.randint(1, 6)):
+                ops.append({"a": "S0", "op": "iterate", "k": k})
         actors = {"S0": spec}
         ops = _maybe_company(rng, actors, ops)
         return G.base_plan(self.prop, run_seed, actors, ops, clock=G.gen_clock(rng))
